@@ -200,7 +200,23 @@ func (p *Program) ApplyEdit(hasAddFile, hasDelFile bool) *Edit {
 		}
 		fd.Type = nt
 		fd.Default = nil
-		return &Edit{kind, true, fmt.Sprintf("field %s of %s in %s: %s -> %s", fd.Name, s.Name, f.RelPath(), old, p.bareType(nt))}
+		what := fmt.Sprintf("field %s of %s in %s: %s -> %s", fd.Name, s.Name, f.RelPath(), old, p.bareType(nt))
+		// the same edit may change the field's requiredness too (both rules then apply to one field)
+		if s.Kind != KUnion {
+			switch ch("edit.retype-and", 4) {
+			case 1:
+				if fd.Req == ReqOptional {
+					fd.Req = ReqRequired
+					what += ", and optional -> required"
+				}
+			case 2:
+				if fd.Req == ReqRequired {
+					fd.Req = ReqOptional
+					what += ", and required -> optional"
+				}
+			}
+		}
+		return &Edit{kind, true, what}
 	case "add-method":
 		ss := p.services(f)
 		if len(ss) == 0 {
